@@ -940,6 +940,9 @@ func (vf *VerifyFunc) havocLoop(st *State, fr *Frame, body map[*ssa.BasicBlock]b
 				// effects of a spawned goroutine are not part of the sequential model (stated in evidence)
 			case *ssa.Call, *ssa.Defer:
 				cc := in.(ssa.CallInstruction).Common()
+				if !cc.IsInvoke() && types.TypeString(cc.Value.Type(), nil) == "context.CancelFunc" {
+					keys["G:ctxDone"] = true // a cancel function marks its context done
+				}
 				eff := vf.eng.callEffect(cc)
 				switch eff.kind {
 				case "pure":
@@ -954,7 +957,9 @@ func (vf *VerifyFunc) havocLoop(st *State, fr *Frame, body map[*ssa.BasicBlock]b
 						allWhy = "dynamic call " + calleeShortName(cc)
 					}
 				}
-			case *ssa.Send, *ssa.Select:
+			case *ssa.Select:
+				keys["G:ctxDone"] = true // a receive from ctx.Done() that goes through marks the context done
+			case *ssa.Send:
 			case *ssa.Alloc:
 				// allocation inside loops: objects are fresh each iteration
 			}
@@ -1151,6 +1156,7 @@ func (vf *VerifyFunc) step(st *State, fr *Frame, in ssa.Instruction) bool {
 			return false
 		}
 		if res != nil {
+			res = vf.ctxDerive(st, &x.Call, args, res)
 			if x.Call.IsInvoke() && x.Call.Method.Name() == "Done" && types.TypeString(x.Call.Value.Type(), nil) == "context.Context" && len(args) > 0 && args[0].S == SIface {
 				r2 := *res
 				r2.DoneOf = "(i_val " + args[0].Tm + ")"
@@ -1605,4 +1611,34 @@ func (e *Engine) localType(fn *ssa.Function, name string) types.Type {
 		localTypesCache[fn] = m
 	}
 	return m[name]
+}
+
+// ctxDerive: context.WithCancel / WithTimeout / WithDeadline return a NEW context that is done exactly when the parent
+// is (at creation), and a cancel function: calling that function (directly or deferred) marks that context done
+// (ghost field ctxDone). The cancel function value remembers its context (FnVal key "ctxcancel").
+func (vf *VerifyFunc) ctxDerive(st *State, cc *ssa.CallCommon, args []*Val, res *Val) *Val {
+	fn, ok := cc.Value.(*ssa.Function)
+	if !ok || cc.IsInvoke() || len(args) == 0 || args[0].S != SIface || len(res.Fs) != 2 || res.Fs[0].S != SIface {
+		return res
+	}
+	switch fn.String() {
+	case "context.WithCancel", "context.WithTimeout", "context.WithDeadline":
+	default:
+		return res
+	}
+	g, okg := vf.eng.cs.Ghosts["ctxDone"]
+	if !okg || !g.Field {
+		return res
+	}
+	r := st.newRef("ctx")
+	tag := vf.eng.typeTag(types.NewPointer(types.Typ[types.UnsafePointer])) // opaque dynamic type of the derived context
+	nc := &Val{T: res.Fs[0].T, S: SIface, Tm: "(mk_iface " + fmt.Sprint(tag) + " " + r + ")"}
+	key, as := "G:ctxDone", ghostFieldSort(g)
+	old := st.heapGet(key, as)
+	st.heapSet(key, as, store(old, "(i_val "+nc.Tm+")", sel(old, "(i_val "+args[0].Tm+")")))
+	cf := *res.Fs[1]
+	cf.Fn = &FnVal{Key: "ctxcancel", Self: nc}
+	out := *res
+	out.Fs = []*Val{nc, &cf}
+	return &out
 }
